@@ -161,7 +161,8 @@ def form_leaf(names=None):
 
 FIRST_PARAM = ["r", "rij", "x"]
 PARAM_POOL = ["a", "b0", "c1", "k", "p", "q", "s", "w", "alpha", "beta", "d2", "g", "h", "m", "t", "u", "z"]
-FORM_NAMES = ["cfa", "cfb", "morsex", "softcut", "fn1", "fn2", "mix", "dampf"]
+# (a formula may be named like a standard form without its 'as.' prefix: 'buck' and 'as.buck' are two forms)
+FORM_NAMES = ["cfa", "cfb", "morsex", "softcut", "fn1", "fn2", "mix", "dampf", "buck", "morse", "polynomial", "constant"]
 TABLE_NAMES = ["tab1", "tab2", "tabulated", "tfx"]
 
 
